@@ -643,6 +643,54 @@ def _cover_any_int(chk, name, alternatives):
     raise Inconclusive('vacuity guard %s is not reachable (%s)' % (name, why[:3]))
 
 
+def replay_deposit_selector(kind, nout):
+    """a transaction whose outputs are (MEL, SYM) and whose data names MEL/SYM, of the model's kind: settled only if it is a
+    LiqDeposit with both outputs unspent.  Variants: plain; output 1 spent by another transaction of the block; output 0 spent"""
+    raw = lambda k: {'txhash': {'hex': ('%02x' % k) * 32}, 'index': 0}
+    if kind not in (0x00, 0x51, 0x52, 0x53):
+        kind = 0x00
+    last = None
+    for respent in (None, 1, 0):
+        k_ = kind if respent is None else 0x52
+        outs = [{'covhash': {'covhash_of': 'true'}, 'value': '4000', 'denom': 'MEL', 'adata': ''}]
+        if nout >= 2 or respent is not None:
+            outs.append({'covhash': {'covhash_of': 'true'}, 'value': '9000', 'denom': 'SYM', 'adata': ''})
+        coins = [{'id': raw(0x21), 'covhash': {'covhash_of': 'true'}, 'value': '4010', 'denom': 'MEL', 'adata': '', 'height': 0},
+                 {'id': raw(0x22), 'covhash': {'covhash_of': 'true'}, 'value': '9000', 'denom': 'SYM', 'adata': '', 'height': 0},
+                 {'id': raw(0x23), 'covhash': {'covhash_of': 'true'}, 'value': '5', 'denom': 'MEL', 'adata': '', 'height': 0}]
+        ins = [raw(0x21)] + ([raw(0x22)] if len(outs) == 2 else [])
+        txs = [{'name': 'a', 'kind': k_, 'inputs': ins, 'fee': '10', 'covenants': ['true'], 'data': '73', 'outputs': outs}]
+        if respent is not None:
+            o = outs[respent]
+            txs.append({'name': 'b', 'kind': 0, 'inputs': [{'txhash': {'txhash_of': 'a'}, 'index': respent}, raw(0x23)], 'fee': '5',
+                        'covenants': ['true'], 'data': '', 'outputs': [dict(o, adata='02')] if o['denom'] != 'MEL' else [dict(o, adata='02')]})
+        sc = {'kind': 'batch', 'network': 2, 'height': 5, 'fee_pool': '0', 'tips': '0', 'fee_multiplier': '0', 'dosc_speed': '1000000',
+              'coins': coins, 'txs': txs, 'probes': [{'txhash': {'txhash_of': 'a'}, 'index': 0}, {'txhash': {'txhash_of': 'a'}, 'index': 1}],
+              'pools': [{'left': 'MEL', 'right': 'SYM', 'lefts': str(10 ** 9), 'rights': str(10 ** 9), 'liqs': str(10 ** 9)}],
+              'melmint_only': 'deposits'}
+        out = harness.run_replay([sc], 'dev')[0]
+        if 'error' in out or 'unrealizable' in out:
+            raise Inconclusive('replay: %s' % out)
+        run = out['runs'][0]
+        if run.get('result') != 'Ok':
+            if respent is None:
+                continue
+            raise Inconclusive('replay: the batch itself was rejected: %s' % run.get('result'))
+        mm = run.get('melmint', {})
+        if mm.get('panicked'):
+            return True, sc, {'why': 'panic: ' + mm.get('msg', '')[-160:]}
+        pool = (mm.get('pools') or [{}])[0]
+        settled = int(pool.get('lefts', 10 ** 9)) != 10 ** 9 or int(pool.get('rights', 10 ** 9)) != 10 ** 9
+        should = k_ == 0x52 and len(outs) == 2 and respent is None
+        last = (sc, {'kind': hex(k_), 'outputs': len(outs), 'output_spent_in_block': respent, 'settled': settled, 'should_be_settled': should,
+                     'pool_after': pool})
+        if settled and not should:
+            return True, last[0], last[1]
+    if last is None:
+        raise Inconclusive('no native deposit-selector scenario was accepted')
+    return False, last[0], last[1]
+
+
 def replay_withdraw_selector(kind, nout):
     """a transaction burning MEL/SYM liquidity tokens in its first output, of the model's kind and output count: settled?
     And a genuine withdrawal whose single output is spent by another transaction of the same block: it must not be settled"""
@@ -983,7 +1031,8 @@ def selectors(chk, it, only=None):
                     if which == 'swap':
                         want = z3.And(ok_parse, pool_there, p0, z3.Or(val_eq(d[0], pk.fields[0]), val_eq(d[0], pk.fields[1])))
                     elif which == 'deposit':
-                        want = z3.And(ok_parse, p0, val_eq(d[0], pk.fields[0]), val_eq(d[1], pk.fields[1])) if nout >= 2 else z3.BoolVal(False)
+                        p1, _ = B.coin_lookup(it, s, coins0, txh, bv(1, 8))
+                        want = z3.And(ok_parse, p0, p1, val_eq(d[0], pk.fields[0]), val_eq(d[1], pk.fields[1])) if nout >= 2 else z3.BoolVal(False)
                     else:
                         want = z3.And(ok_parse, pool_there, p0, val_eq(d[0], liq_denom(s, pk))) if nout == 1 else z3.BoolVal(False)
                     chk.obligation('FUNC/selected-only-if-the-data-names-a-pool-and-the-outputs-fit/%s' % name, pcs + [sel], want, inputs,
@@ -1003,6 +1052,8 @@ def replay_selector(chk, model, inputs, which):
     want_kind = {'swap': 0x51, 'deposit': 0x52, 'withdrawal': 0x53}[which]
     if which == 'withdrawal':
         return replay_withdraw_selector(kind, ev(inputs['n_outputs']))
+    if which == 'deposit':
+        return replay_deposit_selector(kind, ev(inputs['n_outputs']))
     if which != 'swap':
         raise Inconclusive('no native scenario for the %s selector yet' % which)
     kinds = [kind] if kind in (0x00, 0x51, 0x52, 0x53) else []
